@@ -20,9 +20,9 @@ const c12Fuel = 100000
 
 func init() {
 	register(&Prop{ID: "C12", Run: c12Run,
-		Rule: "action trees whose nodes carry subsets of {set, template, log, ext trace, abort} (each op tagged with its node's unique name), a condition from {none, \"true\", \"false\", {{ .flagT }}, {{ .flagF }}, \"\" (present but blank)} (random trees also: other boolean spellings, constant texts that are no boolean, blank and white-space-only texts — a non-nil pointer to \"\" / `when: \"\"`, `when: \"  \"` — at any depth, a flag written by ANOTHER action's set, which is a missing-field error when that action has not run, and the text ANOTHER action's template operation stores) and distinct sibling orders (children listed in shuffled order). Template operations of random trees render a non-boolean text, a boolean, or PARSE AND FAIL WHILE EXECUTING after having produced output (field of a scalar, index of a missing key, undefined associated template, sprig's fail), or DO NOT PARSE at all (an opening `{{` that no `}}` follows, after any text — rendered actions and a stray `}}` included —, a block keyword on its own, an undefined function): the failing operation stops the run and the final data of the failed run are compared like any other. 'enum' cases: the scope root(16 op subsets of size<=2 x 6 conditions) x 0..2 children (6 op subsets of size<=1 x 6 conditions each) — sampled in the quick tier, exhaustive in the thorough tier; 'tree' cases: random trees, depth<=5, fan-out<=4 (thorough: depth 3 trees drawn from the full per-node alphabet in addition). 'seq' cases: 2..3 actions executed one after the other by ONE executor on one data document (every call is made): each call must equal the reference on the data the earlier calls — failed ones included — left behind; later actions have conditions and templates that read the path an earlier template operation wrote to (first the minimal sequences: every kind of template text x top level / two levels down, then random ones). 'mixed' cases: nodes carrying subsets of ALL operation kinds the program form knows (also call, define, forEach, loop) on the same node — every pair of kinds on one node, then random trees; 'allops' cases (no model): one action carrying a subset of all sixteen OpSpec fields (patch, import, templateFile, env, exec, export, html2Dom included), each configured to succeed or to fail — every pair of fields, then random subsets — the operations that ran must be the fields present in the DOCUMENTED order (a literal copy of the field list at the pinned commit, not reflection on the type under test) up to the first failing one; 'hist' cases (HISTORY): one ActionSpec value executed 2..4 times, each time by a fresh executor with its own data, listener and ext registrations (a function name may trace in one run, fail in the next, be absent in a third): every run must equal the reference for THAT run. EQUIVALENT ENTRY POINTS: each enum / tree / mixed case is executed three times — built as Go structs and passed to Execute by value, the same passed as a pointer (Execute(&spec)), decoded from generated YAML; hist runs alternate between the spec value and a pointer to it, seq sequences pass every other struct-built action as a pointer and execute an action that occurs twice in the sequence as ONE value (the same Go objects) twice. Besides the model comparison every run is compared (direct predicate) with an independent Go reference interpreter (c12_ref.go: documented operation order, per-run ext registrations; a condition that is present must evaluate to a boolean — blank texts are no boolean —; rendering yields all of the text or none). Non-trivial: at least 2 actions and at least one operation (hist: at least 2 runs and an ext operation; allops: at least 2 fields; seq: at least 2 actions in sequence). Distinct = distinct canonical case JSON.",
+		Rule: "action trees whose nodes carry subsets of {set, template, log, ext trace, abort} (each op tagged with its node's unique name), a condition from {none, \"true\", \"false\", {{ .flagT }}, {{ .flagF }}, \"\" (present but blank)} (random trees also: other boolean spellings, constant texts that are no boolean, blank and white-space-only texts — a non-nil pointer to \"\" / `when: \"\"`, `when: \"  \"` — at any depth, a flag written by ANOTHER action's set, which is a missing-field error when that action has not run, and the text ANOTHER action's template operation stores) and distinct sibling orders (children listed in shuffled order). Set operations of random trees (VALUE RANGE): mostly the standard payload at the action's own path, also data that is present but EMPTY (`data: {}`: legal — nothing to merge at the root, an empty container created or kept at a path; the run goes on), data that is ABSENT (the one case in which set fails), payloads holding empty-but-present values (empty map, empty list, \"\", null), the root or an existing container as target, an explicit strategy (merge, replace, unknown ones — an error); boolean literals in every spelling of strconv.ParseBool's table (1 t T TRUE true True 0 f F FALSE false False, white space around them). Log and abort messages of random trees: now and then with white space around them, a final line end, other letter case, non-ASCII text, a `}}` before the first action, empty. Template operations of random trees render a non-boolean text, a boolean, or PARSE AND FAIL WHILE EXECUTING after having produced output (field of a scalar, index of a missing key, undefined associated template, sprig's fail), or DO NOT PARSE at all (an opening `{{` that no `}}` follows, after any text — rendered actions and a stray `}}` included —, a block keyword on its own, an undefined function): the failing operation stops the run and the final data of the failed run are compared like any other. 'enum' cases: the scope root(16 op subsets of size<=2 x 6 conditions) x 0..2 children (6 op subsets of size<=1 x 6 conditions each) — sampled in the quick tier, exhaustive in the thorough tier; 'tree' cases: random trees, depth<=5, fan-out<=4 (thorough: depth 3 trees drawn from the full per-node alphabet in addition). 'seq' cases: 2..3 actions executed one after the other by ONE executor on one data document (every call is made): each call must equal the reference on the data the earlier calls — failed ones included — left behind; later actions have conditions and templates that read the path an earlier template operation wrote to (first the minimal sequences: every kind of template text x top level / two levels down, then random ones). 'mixed' cases: nodes carrying subsets of ALL operation kinds the program form knows (also call, define, forEach, loop) on the same node — every pair of kinds on one node, then random trees; 'allops' cases (no model): one action carrying a subset of all sixteen OpSpec fields (patch, import, templateFile, env, exec, export, html2Dom included), each configured to succeed or to fail — every pair of fields, then random subsets — the operations that ran must be the fields present in the DOCUMENTED order (a literal copy of the field list at the pinned commit, not reflection on the type under test) up to the first failing one; 'hist' cases (HISTORY): one ActionSpec value executed 2..4 times, each time by a fresh executor with its own data, listener and ext registrations (a function name may trace in one run, fail in the next, be absent in a third): every run must equal the reference for THAT run. EQUIVALENT ENTRY POINTS: each enum / tree / mixed case is executed three times — built as Go structs and passed to Execute by value, the same passed as a pointer (Execute(&spec)), decoded from generated YAML; hist runs alternate between the spec value and a pointer to it, seq sequences pass every other struct-built action as a pointer and execute an action that occurs twice in the sequence as ONE value (the same Go objects) twice. Besides the model comparison every run is compared (direct predicate) with an independent Go reference interpreter (c12_ref.go: documented operation order, per-run ext registrations; a condition that is present must evaluate to a boolean — blank texts are no boolean —; rendering yields all of the text or none). Non-trivial: at least 2 actions and at least one operation (hist: at least 2 runs and an ext operation; allops: at least 2 fields; seq: at least 2 actions in sequence). Distinct = distinct canonical case JSON.",
 		Assumptions: []string{
-			"template semantics owned by the model: literal text and {{ .a.b }} field chains of scalars only; strconv.ParseBool table; any other action makes the rendering fail in the model — of those the generators use only actions that fail in text/template on every data once the template is executed ({{ template \"nope\" }} with no associated template defined, sprig's {{ fail \"…\" }}, {{ index .k N }} of a key that no generated operation writes) and texts that text/template rejects when it parses them, whatever else they hold (an opening `{{` that no `}}` follows; {{ end }}, {{ else }}, {{ if }}, {{ range }} on their own; {{ nosuchfunc }})",
+			"template semantics owned by the model: literal text and {{ .a.b }} field chains of scalars only; strconv.ParseBool table applied to the rendered text with the white space strings.TrimSpace strips taken off (unicode.IsSpace: NBSP, NEL, U+2003 … included — the model's `trim` lists the same characters); any other action makes the rendering fail in the model — of those the generators use only actions that fail in text/template on every data once the template is executed ({{ template \"nope\" }} with no associated template defined, sprig's {{ fail \"…\" }}, {{ index .k N }} of a key that no generated operation writes) and texts that text/template rejects when it parses them, whatever else they hold (an opening `{{` that no `}}` follows; {{ end }}, {{ else }}, {{ if }}, {{ range }} on their own; {{ nosuchfunc }})",
 			"sibling order values are distinct and small (no overflow in the a.Order-b.Order comparator)",
 			"EvalBool calls are observed through a TemplateEngine wrapper that delegates to the library's own default engine",
 			"error identity: the returned error is compared with == against the errors passed to OnAfter; error texts are not compared (except the rendered abort message)",
@@ -147,6 +147,42 @@ func c12TemplateText(r *rand.Rand, name string) string {
 	return pre + bad + post
 }
 
+// c12SetVariant: the VALUE RANGE of a set operation.  Mostly the standard payload at the action's own path; sometimes
+// data that is PRESENT BUT EMPTY (`data: {}` — legal: nothing to merge at the root, an empty container created or
+// kept at a path; the operation succeeds and the run goes on), data that is ABSENT (nil / no `data:` key — the
+// one case in which the operation fails, and stops the run), a payload that itself holds empty-but-present values
+// (empty map, empty list, "", null), the root as target (no path), and an explicit strategy (merge, replace, or
+// one that does not exist — an error).
+func c12SetVariant(r *rand.Rand, name string, o *c12Op) {
+	switch x := r.Intn(50); {
+	case x < 29:
+	case x < 35:
+		o.Data = plainWire(map[string]any{}) // present but empty
+	case x < 38:
+		o.Data = nil // absent
+	case x < 43:
+		o.Data = plainWire(map[string]any{"v": name, "on": true, "e": map[string]any{}, "l": []any{}, "s": "", "z": nil})
+	case x < 46:
+		o.Path = "" // the root: the payload's keys are merged into the document itself
+		o.Data = plainWire(map[string]any{"w_" + name: map[string]any{"v": name}, "root_" + name: pick(r, []any{"", " ", name, 0, false})})
+	case x < 48:
+		o.Path = ""
+		o.Data = plainWire(map[string]any{})
+	default:
+		o.Path = "keep" // an existing container: merged into (or replaced, by strategy)
+		o.Data = plainWire(pick(r, []map[string]any{{}, {"x": name}, {"n": map[string]any{}}}))
+	}
+	switch x := r.Intn(16); {
+	case x < 11:
+	case x < 13:
+		o.Strategy = sp("merge")
+	case x < 15:
+		o.Strategy = sp("replace")
+	default:
+		o.Strategy = sp(pick(r, []string{"bogus", "", "Merge"}))
+	}
+}
+
 // c12NoParseTails: what makes a text unparsable, to be put after any text (nothing that follows closes the action)
 var c12NoParseTails = []string{"{{ .flagT", "{{", "{{ .flagT }", "{{ .keep.x }-tail", "{{ .flagT }}{{", "{{ end }}", "{{ if }}-tail",
 	"{{ nosuchfunc }}{{ .flagF }}", "{{ else }}", "{{ range }}"}
@@ -169,9 +205,9 @@ func c12RandTree(r *rand.Rand, name string, depth, maxDepth, maxFan int, others 
 	switch x := r.Intn(12); {
 	case x < 5:
 	case x < 7:
-		cond = sp(pick(r, []string{"true", "1", "T", " true ", "True"}))
+		cond = sp(pick(r, []string{"true", "1", "T", " true ", "True", "t", "TRUE", "T\n", " t\t", "\u00a0T", "true\u0085"})) // (white space = unicode.IsSpace: NBSP and NEL included)
 	case x == 7:
-		cond = sp(pick(r, []string{"false", "0", "F"}))
+		cond = sp(pick(r, []string{"false", "0", "F", "f", "FALSE", "False", " f ", "0\u00a0", "\u2003false"}))
 	case x == 8:
 		cond = sp("{{ .flagT }}")
 	case x == 9:
@@ -202,6 +238,18 @@ func c12RandTree(r *rand.Rand, name string, depth, maxDepth, maxFan int, others 
 			if tpls != nil {
 				a.Ops[i].Tmpl = c12TemplateText(r, name)
 				*tpls = append(*tpls, name)
+			}
+		}
+		if a.Ops[i].K == "set" && tpls != nil {
+			c12SetVariant(r, name, &a.Ops[i])
+		}
+		if (a.Ops[i].K == "log" || a.Ops[i].K == "abort") && tpls != nil && r.Intn(4) == 0 {
+			// the VALUE RANGE of a message: logged / carried by the error as rendered, not cleaned up — white space
+			// around it, a final line end, letter case, non-ASCII, a `}}` before the first action, the empty text
+			tag := strings.ToUpper(a.Ops[i].K[:1]) + "-" + name
+			if m := pick(r, []string{" " + tag + " ", tag + "-{{ .flagF }}\n", "\t" + tag, strings.ToLower(tag) + "-{{ .flagT }}", tag + "-\U0001F680-{{ .keep.y }}\u00a0",
+				tag + " }} {{ .flagT }}", "{\"a\":{\"b\":1}} " + tag + " {{ .flagF }}", tag + ".", "", " "}); c12YamlCarries(m) {
+				a.Ops[i].Msg = m
 			}
 		}
 	}
